@@ -105,7 +105,7 @@ template <class C> struct Runner {
 static const char *SHARED_TEXTS[] = { "s://u@h:80/a/b?q#f", "//[::1]:8/p//q?x#y", "a/b/c", "/a//b/", "s:aa/aa?aa#aa", "//1.2.3.4:1?#", "s://uu@hh:11/pp?qq#ff", "//[v1.ab]/ab", "aaaa", "a:a:a/a:a" };
 
 static std::vector<Str> produce_seeds(int n) {
-    std::vector<Str> v = resolve_refs(n, false); std::vector<Str> extra = { "s:/", "s:", "s:/a", "s:a", "s://h", "s://h/", "s://h/a/../", "s:/a/..", "t:/a/..", "s:/.//a", "S://H/%41", "s://h/A", "s://1%2E2.3.4/a", "s://1.2.3.4/a", "s://%31.2.3.4/a" };
+    std::vector<Str> v = resolve_refs(n, false); std::vector<Str> extra = { "s:/", "s:", "s:/a", "s:a", "s://h", "s://h/", "s://h/a/../", "s:/a/..", "t:/a/..", "s:/.//a", "S://H/%41", "s://h/A", "s://1%2E2.3.4/a", "s://1.2.3.4/a", "s://%31.2.3.4/a", "s://255.255%2E255.255/a", "s://255.255.255.255/a", "s://u@1.2.3.4", "s://u@1%2E2.3.4", "s://u@1.2.3.4:", "s://u@h", "s://u@[::1]", "s://1.2.3.4" /* the text ends right behind the host */ };
     v.insert(v.end(), extra.begin(), extra.end()); return v;
 }
 
